@@ -1107,6 +1107,105 @@ func regPageReplay(rp *RegPage) {
 	}
 }
 
+// collectCase runs the same scenario through the helpers that collect a whole listing:
+// registry.Tags, registry.Repositories, registry.Referrers and Repository.Predecessors.
+func collectCase(sc *Scenario) {
+	id := run.NewID()
+	reg := fakereg.New(host)
+	reg.Cap = max(sc.Cap, 1)
+	reg.MaxRequests = len(sc.Items) + 8
+	reg.CursorKey, reg.CursorSalt, reg.Hidden = sc.CursorKey, sc.CursorSalt, hiddenSet(sc.Hidden)
+	reg.Decide = func(x *fakereg.Exchange) fakereg.Decision {
+		if i := len(reg.Log) - 1; i < len(sc.Decs) {
+			return sc.Decs[i]
+		}
+		return fakereg.Decision{M: 1000}
+	}
+	ctx := context.Background()
+	var got []fakereg.Item
+	var err error
+	switch sc.Kind {
+	case "K":
+		reg.Repos = sc.Items
+		r, e := remote.NewRegistry(host)
+		if e != nil {
+			return
+		}
+		r.PlainHTTP, r.Client, r.RepositoryListPageSize, r.MaxMetadataBytes = true, reg.Client(), sc.N, sc.Limit
+		err = guarded(func() error {
+			ss, e := registry.Repositories(ctx, r)
+			got = fakereg.Names(ss...)
+			return e
+		})
+	case "T":
+		reg.Tags[sc.Repo] = sc.Items
+		r := &remote.Repository{Reference: registry.Reference{Registry: host, Repository: sc.Repo}, PlainHTTP: true,
+			Client: reg.Client(), TagListPageSize: sc.N, MaxMetadataBytes: sc.Limit}
+		err = guarded(func() error {
+			ss, e := registry.Tags(ctx, r)
+			got = fakereg.Names(ss...)
+			return e
+		})
+	default:
+		reg.Referrers[sc.Repo+"@"+subject.String()] = sc.Items
+		r := &remote.Repository{Reference: registry.Reference{Registry: host, Repository: sc.Repo}, PlainHTTP: true,
+			Client: reg.Client(), ReferrerListPageSize: sc.N, MaxMetadataBytes: sc.Limit}
+		r.SetReferrersCapability(true)
+		desc := ocispec.Descriptor{MediaType: ocispec.MediaTypeImageManifest, Digest: subject, Size: 7}
+		err = guarded(func() error {
+			var ds []ocispec.Descriptor
+			var e error
+			if sc.AT == "" && len(sc.Items)%2 == 0 {
+				ds, e = r.Predecessors(ctx, desc)
+			} else {
+				ds, e = registry.Referrers(ctx, r, desc, sc.AT)
+			}
+			for _, d := range ds {
+				got = append(got, fakereg.Item{Name: d.Digest.String(), ArtifactType: d.ArtifactType})
+			}
+			return e
+		})
+	}
+	if errors.Is(err, errHang) {
+		hangExit(id, sc, "collecting helper "+sc.Kind)
+	}
+	outcome := classify(err)
+	_, resp := clientTokens(reg.Log)
+	var q0 []fakereg.KV
+	if sc.Kind == "R" && sc.AT != "" {
+		q0 = []fakereg.KV{{K: "artifactType", V: sc.AT}}
+	}
+	model := fmt.Sprintf("CA %s %d %d %s - -1 %s %s %d %s", sc.Kind, sc.N, sc.Limit, common.Hex(sc.AT),
+		common.Hex(basePath(sc)), kvsTok(q0), len(resp), strings.Join(resp, " "))
+	if err != nil {
+		got = nil
+	}
+	run.Case(id, strings.TrimRight(model, " "), fmt.Sprintf("I %s O %s", itemsTok(got), outcome))
+	run.Count("collect_" + sc.Kind + "_" + outcome)
+	// oracle: an undisturbed registry -> everything it shows, once, in order
+	clean := true
+	for _, x := range reg.Log {
+		if x.Status != 200 || !x.JSONOK || x.Dec.RawLink != nil || x.Dec.PreFirst != 0 || (x.Kind == 'R' && x.CType != ocispec.MediaTypeImageIndex) || int64(x.DocLen) > effLimit(sc.Limit) {
+			clean = false
+		}
+	}
+	if clean {
+		var expected []fakereg.Item
+		for _, it := range visible(sc.Items, sc.Hidden) {
+			if sc.Kind != "R" || sc.AT == "" || it.ArtifactType == sc.AT {
+				expected = append(expected, it)
+			}
+		}
+		rep := *sc
+		rep.Op = "collect"
+		if err != nil {
+			run.OracleFail(id, "spurious-error", fmt.Sprintf("collecting %s failed: %v", sc.Kind, err), rep)
+		} else if !sameItems(got, expected) {
+			run.OracleFail(id, "exactly-once", fmt.Sprintf("collecting %s returned %s, registry shows %s", sc.Kind, showNames(got), showNames(expected)), rep)
+		}
+	}
+}
+
 func filterAT(sc *Scenario, p []fakereg.Item) []fakereg.Item {
 	if sc.Kind != "R" || sc.AT == "" {
 		return p
@@ -2186,6 +2285,23 @@ func replay(cases []map[string]string) {
 				panic(fmt.Sprintf("replay: %v in %s", err, js))
 			}
 			regPageReplay(&rp)
+		case "collect":
+			var sc Scenario
+			raw := map[string]json.RawMessage{}
+			for k, v := range c {
+				switch k {
+				case "op", "kind", "repo", "last", "at", "state", "cursorkey", "cursorsalt":
+					b, _ := json.Marshal(v)
+					raw[k] = b
+				default:
+					raw[k] = json.RawMessage(v)
+				}
+			}
+			js, _ := json.Marshal(raw)
+			if err := json.Unmarshal(js, &sc); err != nil {
+				panic(fmt.Sprintf("replay: %v in %s", err, js))
+			}
+			collectCase(&sc)
 		case "wrap":
 			var sc Scenario
 			raw := map[string]json.RawMessage{}
@@ -2286,12 +2402,16 @@ func main() {
 	}
 	// listings
 	exhaustive(run.Scale(4, 7))
-	for i := 0; i < run.Scale(6000, 250000); i++ {
+	for i := 0; i < run.Scale(6000, 180000); i++ {
 		mx := 12
 		if r.Chance(1, 5) {
 			mx = run.Scale(40, 90)
 		}
-		listCase(genScenario(r, mx))
+		sc := genScenario(r, mx)
+		listCase(sc)
+		if sc.CbFail < 0 && r.Chance(1, 4) {
+			collectCase(sc)
+		}
 	}
 	// the string level: net/url resolution, setQueryParams, escaping
 	genStrings(r)
@@ -2342,7 +2462,7 @@ func coverageFloors() {
 		return n
 	}
 	floors := map[string]int{
-		"bytes_consumed_index": 100, "bytes_consumed": 1000, "bytes_consumed_nontrivial": 100, "json_listing_body": 200, "json_OK": 200, "json_IN": 500, "string_loop": 2000, "string_first_request": 1000, "string_next_request_NEXT": 1000, "string_next_request_NONE": 300, "string_next_request_ERR": 10,
+		"collect_T_": 200, "collect_K_": 100, "collect_R_": 200, "bytes_consumed_index": 100, "bytes_consumed": 1000, "bytes_consumed_nontrivial": 100, "json_listing_body": 200, "json_OK": 200, "json_IN": 500, "string_loop": 2000, "string_first_request": 1000, "string_next_request_NEXT": 1000, "string_next_request_NONE": 300, "string_next_request_ERR": 10,
 		"string_set_query": 300, "string_escape": 200, "string_resolve_OK": 200, "string_resolve_ER": 50,
 		"cursor_opaque": 100, "hidden_entries": 100, "list_empty_page_with_link": 20, "link_raw_pairs": 50, "link_other_path": 50, "link_after_redirect": 30, "link_further_values": 100, "link_rel_first_stream": 5,
 		"list_link_missing_midway": 5, "json_shape_variant": 100, "registry_page": 1000, "exhaustive": 200,
